@@ -85,10 +85,58 @@ fn check_double(m: &Mat2Case, stat: Stat2, obs: &mut Obs) -> CheckResult {
     Ok(())
 }
 
+/// Windows far beyond any series length ("all windows >= 1": 2^31, 2^32, 2^62, 2^63, usize::MAX - the
+/// ways of asking for an expanding window), with min_periods omitted (floor(w/2) can then never be
+/// reached: every output is null) or explicit (small: the expanding-window mask; of the order of the
+/// window: all null). The model evaluates the equivalent window len + 2.
+const HUGE_W: [usize; 10] = [1 << 31, (1 << 31) + 1, 1 << 32, (1 << 32) + 6, 1 << 33, 1 << 62, 1 << 63, usize::MAX, usize::MAX - 1, isize::MAX as usize];
+
+fn huge_case(tier: Tier, ins: &'static [InT], outs: &'static [OutT]) -> impl Strategy<Value = RollCase> {
+    (roll_case_of(tier, ins, outs, 24, 60, 1, EXACT_CLASSES), 0usize..10, 0usize..10).prop_map(|(mut c, ws, ms)| {
+        let len = c.x.len();
+        c.w = HUGE_W[ws];
+        c.mp = match ms {
+            0 | 1 => None,
+            2 => Some(0),
+            3 => Some(1),
+            4 => Some(2),
+            5 => Some(len / 2),
+            6 => Some(len),
+            7 => Some(c.w / 2),
+            8 => Some(((1usize << 31) + 1).min(c.w)),
+            _ => Some(c.w),
+        };
+        c
+    })
+}
+
+fn check_huge(c: &RollCase, stat: Stat, valid: bool, obs: &mut Obs) -> CheckResult {
+    let name = format!("huge_w:{}{}", if valid { "ts_v" } else { "ts_" }, stat.name());
+    let len = c.x.len();
+    if stat == Stat::Ewm && c.w > (1 << 40) {
+        // alpha = 2/w is below the resolution of f64 there (1 - alpha rounds to 1 from w = 2^54 on and the
+        // normalising factor 1 - (1-alpha)^n cancels completely): the statistic is not computable from the
+        // library's own definition of alpha, so nothing is asserted (DESIGN 5.2)
+        obs.class("ewm_alpha_below_f64_resolution_skipped");
+        return Ok(());
+    }
+    let got = if valid { eval_valid(c, stat) } else { eval_plain(c, stat) }.map_err(|e| Fail { sig: format!("{}:out-path", name), detail: e })?;
+    let exp = match c.mp {
+        None if stat.cmp_family() => return Ok(()), // DESIGN 5.3: unspecified for len < w
+        None => expect_series(stat, &c.x, len + 2, Some(len + 2)),
+        Some(m) => expect_series(stat, &c.x, len + 2, Some(m.min(len + 2))),
+    };
+    mask_check(&name, &got, &exp, c.tout, len).map_err(|f| Fail { sig: format!("{}:{}", name, f.sig), detail: format!("window {} min_periods {:?}: {}", c.w, c.mp, f.detail) })?;
+    obs.class_if(c.mp.is_none(), "min_periods_omitted");
+    obs.class_if(matches!(c.mp, Some(m) if m > len), "min_periods>len");
+    obs.set_nontrivial(len > 0);
+    Ok(())
+}
+
 fn main() {
     let mut p = Property::new(
         "C05",
-        "cases = (series of length 0..=24 (thorough ..=60) from exact value classes x all null patterns, window 1..=len+2, min_periods omitted or 0..=w, input element type, output element type, input backend (Vec, array, VecDeque rotations, ndarray owned / strided / reversed views, Arc-wrapped), output container, returned/out-buffer path) per rolling entry point; oracle = length law and boolean null-mask law from counted valid observations. \
+        "cases = (series of length 0..=24 (thorough ..=60) from exact value classes x all null patterns, window 1..=len+2, min_periods omitted or 0..=w, input element type, output element type, input backend (Vec, array, VecDeque rotations, ndarray owned / strided / reversed views, Arc-wrapped), output container, returned/out-buffer path) per rolling entry point; oracle = length law and boolean null-mask law from counted valid observations; type_extreme_windows:* replace the window by 2^31 .. usize::MAX (min_periods omitted, small, or of the order of the window) and compare with the equivalent window len + 2 (non-trivial there = len > 0). \
          Non-trivial = len 0, or len < w, or a position whose null-ness is decided by nulls inside the window rather than by warm-up; distinct = distinct serialised cases",
     )
     .assume("value classes are dyadic / small integers so that 'defined' (non-zero spread) is decidable exactly (DESIGN 5.6)")
@@ -143,6 +191,34 @@ fn main() {
                 })
             },
             move |m: &MatCase, obs: &mut Obs| check_single(m, st, false, obs),
+        ));
+    }
+    for st in valid_stats {
+        if matches!(st, Stat::Fdiff(_)) {
+            continue;
+        }
+        let outs: &'static [OutT] = if matches!(st, Stat::Min | Stat::Max) { OUTS_NONULLINT } else { OUTS };
+        p.add(sub(&format!("type_extreme_windows:ts_v{}", st.name()), 1500, 50000, move |tier| huge_case(tier, INS, outs), move |c: &RollCase, obs: &mut Obs| check_huge(c, st, true, obs)));
+    }
+    for st in plain_stats {
+        if matches!(st, Stat::Fdiff(_)) {
+            continue;
+        }
+        p.add(sub(
+            &format!("type_extreme_windows:ts_{}", st.name()),
+            1500,
+            50000,
+            move |tier| {
+                huge_case(tier, PLAIN_INS, OUTS).prop_map(|mut c| {
+                    for v in c.x.iter_mut() {
+                        if v.is_none() {
+                            *v = Some(0.0);
+                        }
+                    }
+                    c
+                })
+            },
+            move |c: &RollCase, obs: &mut Obs| check_huge(c, st, false, obs),
         ));
     }
     let two = [
